@@ -79,6 +79,7 @@ class Ctx:
         self.notes: list = []
         self.var_count = 0
         self.tol = 1e3 * float(np.finfo(real_t).eps)
+        self.prefer = "smt"  # which z3 engine to try first ("nlsat" for genuinely polynomial identities)
 
     # ---- inputs ---------------------------------------------------------------------
     def _num(self, name, default):
@@ -172,7 +173,7 @@ class Ctx:
         if cond is S.TRUE:
             self._record(Claim(name, "unsat", trivial=True))
             return
-        r = smt.prove(self.hyps, cond, timeout_ms=self.timeout_ms, tag=name.split("[")[0])
+        r = smt.prove(self.hyps, cond, timeout_ms=self.timeout_ms, tag=name.split("[")[0], prefer=self.prefer)
         model = r.model
         if r.status == "sat" and robust is not None:
             r2 = smt.check_sat(self.hyps + [robust], timeout_ms=min(self.timeout_ms, 10000), tag=name.split("[")[0] + ":robust")
